@@ -219,7 +219,7 @@ def guard_bits_o(d):
             for t in (r.tagged_blocks.values() if r.tagged_blocks else []):
                 x = t.data
                 if type(x).__name__ == "SectionDividerSetting" and x.sub_type is not None and not (x.signature and x.blend_mode):
-                    bits |= 32      # twin of Resave.leaf_guard (payload classes active only in the oracle stream)
+                    bits |= 32      # class of F-C02-6: the reader cannot produce it since /repo de58475; still reported
     return bits
 
 
@@ -301,9 +301,8 @@ LI = "psd.layer_and_mask_information.layer_info."
 _D = {
     1: lambda p, a, b: p in (LI + "layer_records", LI + "channel_image_data") and a.endswith("(len=0)") and b == "None",
     2: lambda p, a, b: p == "psd.layer_and_mask_information.tagged_blocks" and a == "None" and b == "TaggedBlocks(len=0)",
-    32: lambda p, a, b: p.endswith(".data.sub_type") and "SECTION_DIVIDER_SETTING" in p.rsplit("]", 1)[0].rsplit("[", 1)[-1] and b == "None",
 }
-_FID = {1: "F-C02-1", 2: "F-C02-2", 16: "F-C02-5", 32: "F-C02-6"}      # F-C02-3 / F-C02-4: fixed by /repo f3a2729, suppress nothing
+_FID = {1: "F-C02-1", 2: "F-C02-2", 16: "F-C02-5"}      # F-C02-3 / F-C02-4 (f3a2729) and F-C02-6 (de58475) are fixed: they suppress nothing
 
 
 def explain(kind, obs):
@@ -389,7 +388,6 @@ def _still(b, kind):
 core.KNOWN_WITNESS["F-C02-1"] = lambda: _still(W1, "resaved-not-equal")
 core.KNOWN_WITNESS["F-C02-2"] = lambda: _still(W2, "resaved-not-equal")
 core.KNOWN_WITNESS["F-C02-5"] = lambda: _still(W5, "resaved-unreadable")
-core.KNOWN_WITNESS["F-C02-6"] = lambda: _still(W6, "resaved-not-equal")
 
 
 def _work(item):
